@@ -70,6 +70,7 @@ RULE = ("breadth-first search over all dispatcher states reachable by "
         "space")
 
 TX, PASS = bpfvm.XDP_TX, bpfvm.XDP_PASS
+ECAT = b"\x88\xa4"             # the ethertype of a frame on the loop
 INDEX0 = 17                    # EtherXDP.INDEX0, raw-frame offset
 ETHERTYPE = 0x9abc             # what user space wants to see (data0)
 MARK, STALE = 0x5a5a, 0x1111
@@ -215,11 +216,20 @@ def judge_pass(writers, out_pos, gsize, registered, werr0, mark, frame, obs):
         v.append(("C22", "frame length changed", len(frame), len(post)))
         return v
     data0 = bytes(frame[26:28])
-    if not registered and ret == PASS and \
-            bytes(post[12:14]) != data0[::-1]:
-        v.append(("C22", "unregistered group: frame reaches user space "
+    # the ethertype of a frame of a group, on every pass: what goes back
+    # onto the EtherCAT loop is an EtherCAT frame, what is handed to user
+    # space carries the ethertype user space asked for (data0)
+    if ret == PASS and bytes(post[12:14]) != data0[::-1]:
+        v.append(("C22", ("registered" if registered else "unregistered")
+                  + " group: frame reaches user space "
                   "with the wrong ethertype",
                   data0[::-1].hex(), bytes(post[12:14]).hex()))
+    if ret == TX and bytes(post[12:14]) != ECAT:
+        v.append(("C22", "frame returned to the bus without the EtherCAT "
+                  "ethertype", ECAT.hex(),
+                  dict(ethertype=bytes(post[12:14]).hex(),
+                       data0=data0[::-1].hex(),
+                       group_program_ran=bool(tail))))
     diff = {i for i in range(len(frame)) if frame[i] != post[i]}
     # the loop index and the ethertype belong to the dispatcher (C22
     # judges the ethertype); C21 is about everything else in the frame
@@ -272,15 +282,14 @@ def judge_pass(writers, out_pos, gsize, registered, werr0, mark, frame, obs):
                       "all writer commands NOP, or group program ran",
                       dict(commands=live, index=post[INDEX0])))
         elif not won:
-            v.append(("C21", "frame returned to the bus with enabled write "
-                      "datagrams in a pass with output disabled",
-                      "all writer commands NOP, or the group program "
-                      "processed the frame with output enabled "
-                      "(wkc_errors != 0)",
-                      dict(commands=live, index=post[INDEX0],
-                           wkc_errors=werr0,
-                           outputs=[struct.unpack_from("<H", post, p)[0]
-                                    for p in out_pos])))
+            # the group's program processed the frame in this pass, with
+            # output disabled.  The last sentence of the statement asks for
+            # "processed in that pass", not for "with output enabled"
+            # (reading that demands less; see the assumptions): such a
+            # frame arrived with its write datagrams enabled - the pass
+            # enabled nothing, or the byte comparison above has reported it -
+            # and goes on as it came.  Noted, not judged.
+            obs["disabled_program_returned_enabled_frame"] = True
     return v
 
 
